@@ -65,6 +65,9 @@ func BuildStructCodec(p CodecBuilder, registry CodecRegistry, typ reflect.Type, 
 		if err != nil {
 			return nil, fmt.Errorf("could not parse plenc tag on field %d %s of %s. %w", i, sf.Name, typ.Name(), err)
 		}
+		if index < 0 {
+			return nil, fmt.Errorf("negative plenc index %d on field %d %s of %s", index, i, sf.Name, typ.Name())
+		}
 
 		field := &c.fields[count]
 		count++
